@@ -60,7 +60,7 @@ def run(ctx):
         "thorough tier enumerates the whole finite space of the statement (10 ops x 4 base forms x Rhs in {Self, other} x 3 requested sets + OpAssign bases); quick tier a seeded half of 3 operators",
         "Output/generics/where-clause carry-over is a compile-time obligation (SameTy2 bound, generic programs with `where Self: Sized`) discharged by rustc",
     ]
-    g = glayer.run_g(ctx, {"implitem": ["to_ref_elem", "to_rhs", "ref_type_with", "Args::from_attr_args"]})
+    g = glayer.run_g(ctx, {"implitem": ["to_ref_elem", "to_rhs", "ref_type_with", "find_output_type", "Args::from_attr_args"]})
     ctx.assumptions += [
         "layer G (Verus, contracts/implitem.rs): to_ref_elem == ref_elem (looks through parentheses/groups, only a plain `&T` is the reference form), to_rhs == rhs_of (the single type argument with Self written out, else the self type), ref_type_with, Args::from_attr_args (which forms are requested); syn's Type / PathSegment / Punctuated are stand-ins with the variant and field names the functions look at (Punctuated modelled as Vec), expand_self / ref_type uninterpreted",
     ]
